@@ -1117,6 +1117,8 @@ func (w *World) doCompact(n *node, i uint64) {
 	if !ok {
 		return
 	}
+	n.disk.flush(len(n.disk.Buf))
+	w.afterDiskWrite(n)
 	_, cs := n.disk.confLookup(i)
 	ok = w.guard(n, "storage-compact", func() {
 		ch, _ := n.disk.chainAt(i)
@@ -1136,16 +1138,19 @@ func (w *World) doCompact(n *node, i uint64) {
 	w.call(n, "compact", nil, func() {})
 }
 
-// compactRange returns (lo, hi]: the legal compaction indexes right now.
+// compactRange returns (lo, hi]: the legal compaction indexes right now. A
+// compaction is a synced write, so buffered (unsynced) writes count as written.
 func (w *World) compactRange(n *node) (uint64, uint64) {
 	d := n.disk
-	if !n.up() || !d.HasHS {
+	if !n.up() {
 		return 0, 0
 	}
+	hs, _, _ := n.ms.InitialState()
+	if hs == nil {
+		return 0, 0
+	}
+	li, _ := n.ms.LastIndex()
 	lo := d.SnapIndex
-	hi := min(d.DurApplied, d.lastIndex(), n.st.Applied, d.Commit, n.appIndex)
-	if len(d.Buf) > 0 {
-		return 0, 0
-	}
+	hi := min(d.DurApplied, li, n.st.Applied, hs.GetCommit(), n.appIndex)
 	return lo, hi
 }
